@@ -1043,10 +1043,13 @@ func (w *c44World) actBlock(t *rapid.T) {
 		// be a valid (possibly truncated or empty) block or an error.
 		asm = make(chan c44AsmResult, 1)
 		round := w.l.Latest() + 1
+		done := make(chan struct{})
 		go func() {
+			defer close(done)
 			ub, err := w.pool.AssembleBlock(round, time.Now().Add(3*time.Second))
 			asm <- c44AsmResult{ub, err}
 		}()
+		defer func() { <-done }() // also on a failing path: the goroutine never outlives the case (returns by its deadline at the latest)
 		if rapid.Bool().Draw(t, "yield") {
 			time.Sleep(time.Millisecond)
 		}
